@@ -1280,6 +1280,10 @@ func (d *driver) finish() {
 }
 
 func (d *driver) runCase() {
+	if d.spec.Kind == "nats" {
+		d.runNats()
+		return
+	}
 	d.setup()
 	if d.spec.Kind == "sched" {
 		d.runSchedule()
